@@ -1,5 +1,6 @@
 """C16: layout utilities agree with the codec: usage map, dummy signals, frame length, compress.
-Second tie (translator): gen/Tie_frame.v proves the regenerated Frame.fit_dlc equal to Layout.fit_dlc for all sizes.
+Second tie (translator): gen/Tie_frame.v (Frame.fit_dlc) and gen/Tie_layout.v (Frame.calc_dlc, CanMatrix.recalc_dlc) prove the bodies
+regenerated from the source equal to Layout.fit_dlc / calc_dlc / recalc_frame / recalc_dlc for all arguments (plain frames).
 Tie: Frame.get_frame_layout / create_dummy_signals / calc_dlc / fit_dlc / compress, CanMatrix.recalc_dlc / set_fd_type vs
 model/Layout.v (cmd 1601-1608) on the same cases (usage map as lists of signal indices per bit, all signals after
 create_dummy_signals, sizes, start bits after compress), incl. placements that leave the frame (Python slice clamping).
@@ -87,8 +88,9 @@ def run(chk):
                 "max rule; distinct by (frame length, signals, operation)")
     ok = chk.build_and_audit()
     if ok and hasattr(core, "translator_tie"):
-        # second tie for fit_dlc: the body regenerated from the source by py2coq equals Layout.fit_dlc for all sizes
-        core.translator_tie(chk, ['gen/Tie_frame.v'], ['gen/Gen_frame.v'])
+        # second tie: the bodies of Frame.fit_dlc, Frame.calc_dlc and CanMatrix.recalc_dlc regenerated from the source by py2coq
+        # equal Layout.fit_dlc / calc_dlc / recalc_frame / recalc_dlc for all arguments (plain frames)
+        core.translator_tie(chk, ['gen/Tie_frame.v', 'gen/Tie_layout.v'], ['gen/Gen_frame.v', 'gen/Gen_layout.v'])
     cm = core.import_impl()
     C = cm.canmatrix
     rng = chk.rng
